@@ -971,19 +971,18 @@ class Reaction(Object):
         """
         # no references to model when copying
         model = self._model
+        # A reaction that was removed from a model still refers to metabolites and
+        # genes of that model: remember the model of every object separately.
+        referenced = [(i, i._model) for i in (*self._metabolites, *self._genes)]
         self._model = None
-        for i in self._metabolites:
-            i._model = None
-        for i in self._genes:
+        for i, _ in referenced:
             i._model = None
         # now we can copy
         new_reaction = deepcopy(self)
         # restore the references
         self._model = model
-        for i in self._metabolites:
-            i._model = model
-        for i in self._genes:
-            i._model = model
+        for i, i_model in referenced:
+            i._model = i_model
         return new_reaction
 
     def __add__(self, other: "Reaction") -> "Reaction":
